@@ -3,9 +3,11 @@ CONSTANTS
   MaxLen = 5
   Widths = {1, 2, 3, 4}
   NewlineRule = "le"
+  EntryCopy = "same"
   ColMode = "bytes"
   EolEntry = TRUE
+  SymLineMap = "keep"
 INIT Init
 NEXT Next
-INVARIANTS PositionIsAdvance RangeOrdered RangeInBounds RangeCovers
+INVARIANTS PositionIsAdvance RangeOrdered RangeInBounds RangeCovers EofPositionInInput LastRangeCoversRest
 CHECK_DEADLOCK FALSE
